@@ -189,6 +189,14 @@ def derive(g, w, b, d, how):
         b._init_scope(t)
         if g.chance(0.5):
             b.setup_scope(t)
+        if list(dobj.bundles) and g.chance(0.5):
+            # the receiving document already has a bundle under an identifier one of the source's bundles uses: update() merges
+            # the source's bundle into that one, and the source's bundle stays as it was
+            for bo in list(dobj.bundles):
+                if g.chance(0.6):
+                    tb, _e = w.bundle(t, bo.identifier)
+                    if tb is not None:
+                        w.new_record(tb, "Entity", QualifiedName(Namespace("own", "http://receiver.example/"), "kept%d" % r.randint(0, 9)), [])
         err = w.update(t, d)
         return ("cont", d, t) if err is None else None
     if how == "add_bundle_doc":
@@ -257,8 +265,12 @@ def make_case(ctx, g):
             w.new_record(c_, "Activity", q_, [(PROV["startTime"], _dt.datetime(2020, 1, 1, 8, 0, 0))])
             w.new_record(c_, "Activity", q_, [(PROV["startTime"], _dt.datetime(2020, 1, 2, 9, 30, 0))])
             ctx.count("bundle-that-cannot-be-unified")
+    src_before = observe(w.conts[d])
     res = derive(g, w, b, d, how)
     ctx.evaluations += 1
+    if res is not None and res[0] == "cont" and res[1] == d and observe(w.conts[d]) != src_before:
+        # independence begins with the deriving call: it reads its source and writes only what it returns (or the receiver)
+        fails.append(Failure("oracle", None, "%s changed its source" % how, {"ops": list(w.ops), "derive": how, "mutated": "none", "watch": d}))
     if res is None:
         ctx.count("derive-not-applicable:" + how)
         return w, fails
